@@ -104,6 +104,12 @@ def gen(chk):
             c = S.build(rng, k, ht=0, mutate="control", wn=wn)
             sessions.append({"kind": k + "/badcommit", "argv": ["--tx=" + c["spend"], "--txin=" + c["fund"], "--modify-flags=-CONST_SCRIPTCODE"],
                              "case": "spend id=%%s tx=%s txin=%s flags=%d ls=1 cmds=%%s" % (hx(c["spend"]), hx(c["fund"]), STD & ~S.F_CONST), "walk": ["s"] * 10})
+    # an EMPTY tapscript leaf: the commitment lines are still stepped through (F54)
+    for wn in ((0, 2) if q else (0, 1, 2, 3)):
+        for mut in (None, "control"):
+            c = S.build(rng, "p2tr-empty", ht=0, mutate=mut, wn=wn)
+            sessions.append({"kind": "p2tr-empty", "argv": ["--tx=" + c["spend"], "--txin=" + c["fund"], "--modify-flags=-CONST_SCRIPTCODE"],
+                             "case": "spend id=%%s tx=%s txin=%s flags=%d ls=1 cmds=%%s" % (hx(c["spend"]), hx(c["fund"]), STD & ~S.F_CONST), "walk": ["s"] * 6})
     # pay-to-script-hash shaped outputs with the P2SH flag removed: the redeem script is neither executed nor listed
     for k in ("p2sh", "p2sh-codesep", "p2sh", "p2pkh"):
         for _ in range(2 if q else 20):
